@@ -73,6 +73,12 @@ def make_corpus(tier, seed):
     corpus = []
     for c in collect(H.histories(H.Opts()), n[0], seed * 7 + 1):
         corpus.append(dict(c, kind="history"))
+    # a profile rich in whole-container readers (computed keys) next to readers of single members: an assignment to a
+    # member then starts the sort from two refs (owner and item), whose visiting order follows the hash
+    heavy = H.Opts(comp_one_in=2, ftasks=False, knobs=False, maint=False, max_ops=18, risky_ops=False,
+                   weights={"sete": 50, "setv": 40, "inplace": 5, "unreg": 5})
+    for c in collect(H.histories(heavy), n[0], seed * 7 + 6):
+        corpus.append(dict(c, kind="history"))
     opts = H.Opts(ftasks=False, knobs=False, maint=False, max_ops=20, eq=True)
     for c in collect(c12.cases(opts), n[1], seed * 7 + 2):
         corpus.append(dict(c, kind="pickle"))
@@ -84,7 +90,44 @@ def make_corpus(tier, seed):
     for c in collect(keytype_cases(), max(40, n[3] // 5), seed * 7 + 5):
         corpus.append(c)
     corpus.extend(arith_programs())
+    corpus.extend(owner_and_item_programs())
     return corpus
+
+
+def owner_and_item_programs():
+    """Assigning a member starts the task sort from TWO refs (the member and its owner).  One task reads the owner as a
+    whole (computed key), another reads the member AND the first task's target: whatever order the two start refs are
+    visited in (it follows their hashes), the second must run after the first."""
+    init = {E.loc_str(k): E.enc(float(i + 1)) for i, k in enumerate(W.NUM_LEAVES)}
+    out = []
+    L = W.L
+    I = W.I
+    for cont, keyleaf, members, keyvals in (
+            (L("d", I("l")), W.IDX_LEAF, [0, 1, 2], [0, 1, 2]),
+            (L("d", I("n0")), W.KEY_LEAF, ["p", "q"], ["p", "q"])):
+        for mi, member in enumerate(members):
+            for chain in (0, 1, 2):
+                for tgt_x, tgt_y in ((L("d", I("a")), L("d", I("b"))), (L("e", W.A("x")), L("g", I("k1"))),
+                                     (L("d", I("n1"), I("p")), L("d", I("n1"), I("q")))):
+                    ini = dict(init)
+                    ini[E.loc_str(W.IDX_LEAF)] = E.enc(keyvals[mi] if keyleaf == W.IDX_LEAF else 0)
+                    ini[E.loc_str(W.KEY_LEAF)] = E.enc(keyvals[mi] if keyleaf == W.KEY_LEAF else "p")
+                    whole = ["bin", "*", ["item", W.ast_loc(cont), W.ast_loc(keyleaf)], E.lit(2.0)]
+                    ops = [{"op": "sete", "loc": W.json_loc(tgt_x), "ast": whole}]
+                    prev = tgt_x
+                    spare = [L("d", I("c")), L("d", I("x"))]
+                    for c in range(chain):
+                        ops.append({"op": "sete", "loc": W.json_loc(spare[c]), "ast": ["bin", "+", W.ast_loc(prev), E.lit(1.0)]})
+                        prev = spare[c]
+                    memb = (cont[0], cont[1] + (I(member),))
+                    ops.append({"op": "sete", "loc": W.json_loc(tgt_y),
+                                "ast": ["bin", "+", W.ast_loc(memb), W.ast_loc(prev)]})
+                    ops.append({"op": "setv", "loc": W.json_loc(memb), "v": E.enc(40.5)})
+                    ops.append({"op": "setv", "loc": W.json_loc(memb), "v": E.enc(-7.25)})
+                    case = {"kind": "history", "init": ini, "ops": ops, "family": "owner-and-item"}
+                    if valid(case):         # outside known-finding class K1 (siblings under one owner feeding each other)
+                        out.append(case)
+    return out
 
 
 BIG = [2 ** 53 + 1, (2 ** 53 + 1) * 3, 6, 10 ** 400, 10 ** 398, -(2 ** 63), 2 ** 64 + 1, 3, 0, 7.0, 0.1, 1e308, True]
